@@ -101,7 +101,33 @@ def rule_late_binding(ctx, eff):
                         r = pkg.resolve_expr(m, None, sub)
                         if r and r.startswith(f"{PKG}.typing.gv."):
                             ctx.violation("C14.2", None, None, f"module {m.name}: {src_of(stmt)}", "module/class-level value captured from gv at import time")
-    ctx.holds("C14.2", None, None, f"{nfun} function signatures and all module/class-level assignments", "no definition-time read of gv")
+    # memoised functions must not depend on gv: the cached value is frozen at the first call for given arguments
+    n_memo = 0
+    for q, s in eff.sum.items():
+        if s.memoised is None:
+            continue
+        n_memo += 1
+        reads = []
+        for r in eff.reachable(q):
+            for node in eff.sum[r].reads_gv:
+                reads.append((r, node))
+        if reads:
+            r, node = reads[0]
+            ctx.violation("C14.2", s.fi, s.fi.node, f"{q} is cached ({src_of(s.memoised)}) but reads {src_of(node)}" + (f" (in {r})" if r != q else ""),
+                          "a memoised function captures the gv value of its first call with given arguments: after gv(...) is reconfigured the stale result is reused (the grid in force at call time is ignored)")
+        else:
+            ctx.holds("C14.2", s.fi, s.fi.node, f"{q} is cached and does not read gv", "cache key covers everything the result depends on")
+    # hand-written caches: module-level containers written by a function that reads gv with a key that does not
+    for q, s in eff.sum.items():
+        for node, name in s.global_writes:
+            if q.startswith("utils._Timer") or name in ("_timer_instance",):
+                continue
+            reads = [n for r in eff.reachable(q) for n in eff.sum[r].reads_gv]
+            key_src = src_of(node.targets[0].slice) if isinstance(node, ast.Assign) and isinstance(node.targets[0], ast.Subscript) else ""
+            if reads and "gv" not in key_src:
+                ctx.violation("C14.2", s.fi, node, f"{q} stores into module-level `{name}`: {src_of(node)[:100]}",
+                              "a module-level cache/state is filled by a function that reads gv, keyed without the gv values it depends on: results depend on what was called before a gv(...) change")
+    ctx.holds("C14.2", None, None, f"{nfun} function signatures, {n_memo} memoised functions and all module/class-level assignments", "no definition-time or first-call capture of gv")
 
 
 def _unround(f):
